@@ -260,6 +260,9 @@ type fileDigest struct {
 	Size        int64  `yaml:"size"`
 	ModTime     int64  `yaml:"mtime"`
 	OverlayHash string `yaml:"overlay_hash,omitempty"`
+	// Hash is the sha256 of the file content: size and mtime alone miss a same-size
+	// edit whose timestamp is preserved (cp -p, rsync -t, archive extraction).
+	Hash string `yaml:"sha256,omitempty"`
 }
 
 // digestFiles calculates digests for multiple files.
@@ -289,10 +292,15 @@ func digestFilesWithOverlay(paths []string, overlay map[string][]byte) ([]fileDi
 		if err != nil {
 			return nil, fmt.Errorf("stat file %q: %w", path, err)
 		}
+		hash, err := digestFile(path)
+		if err != nil {
+			return nil, fmt.Errorf("hash file %q: %w", path, err)
+		}
 		digests = append(digests, fileDigest{
 			Path:    path,
 			Size:    info.Size(),
 			ModTime: info.ModTime().UnixNano(),
+			Hash:    hash,
 		})
 	}
 
